@@ -131,7 +131,7 @@ func checkMapNilGuards(c *Ctx, rp *packages.Package) {
 					return false
 				}
 				// h.count inside the guard condition itself (h == nil || h.count == 0) is protected by short-circuit
-				if ce := condOf(guardBlk); ce != nil && s.Pos() >= ce.Pos() && s.End() <= ce.End() {
+				if ce := condOf(guardBlk); ce != nil && within(ce, s) {
 					return false
 				}
 				return true
